@@ -53,6 +53,11 @@ pub struct CaseC15 {
     /// where the cursor is put back to, as a fraction of the filled area (monotone map)
     pub mark: u16,
     pub queries: Vec<Query>,
+    /// file variant: the arena lives in a file; after the fill and the rewind it is closed and reopened (0 map_mut,
+    /// 1 map_copy, 2 map, 3 map_copy_read_only by the low two bits) with a capacity option BELOW the cursor stored in the
+    /// file (position by the upper bits): the open must be refused or yield an arena on which the statement holds
+    #[serde(default)]
+    pub shrink: Option<u16>,
 }
 
 const NREADERS: u8 = 2 + 16 + 8;
@@ -85,6 +90,9 @@ fn run_c15<A: Flavor>(case: &CaseC15) -> CaseReport {
     let opts = Options::new().with_unify(case.unify).with_reserved(case.reserved as u32).with_freelist(rarena_allocator::Freelist::None);
     let d = if case.unify { opts.data_offset_unify::<A>() } else { opts.data_offset::<A>() };
     let cap = d + 1 + (case.extra as usize % 300);
+    if let Some(sel) = case.shrink {
+        return run_c15_shrunk::<A>(case, sel, classes);
+    }
     let Ok(arena) = opts.with_capacity(cap as u32).alloc::<A>() else {
         return CaseReport { nontrivial: false, classes, viol: None };
     };
@@ -233,6 +241,68 @@ fn run_c15<A: Flavor>(case: &CaseC15) -> CaseReport {
     CaseReport { nontrivial, classes, viol: res.err() }
 }
 
+/// File variant of C15: fill, rewind to the mark, close; reopen with a capacity option below the stored cursor.
+fn run_c15_shrunk<A: Flavor>(case: &CaseC15, sel: u16, mut classes: BTreeSet<&'static str>) -> CaseReport {
+    let opts = Options::new().with_reserved(case.reserved as u32).with_freelist(rarena_allocator::Freelist::None);
+    let d = opts.data_offset_unify::<A>();
+    let cap = d + 1 + (case.extra as usize % 300);
+    let path = crate::enga::fresh_path();
+    let _ = std::fs::remove_file(&path);
+    let res = (|| -> Result<(), Viol> {
+        let arena: A = match unsafe { opts.with_capacity(cap as u32).with_create_new(true).with_read(true).with_write(true).map_mut::<A, _>(&path) } {
+            Ok(a) => a,
+            Err(_) => return Ok(()),
+        };
+        {
+            let mut h = arena.alloc_bytes(arena.remaining() as u32).map_err(|e| viol!("C04", "fill-failed", "{e:?}"))?;
+            let n = Buffer::capacity(&h);
+            let p = h.as_mut_ptr();
+            for i in 0..n {
+                unsafe { p.add(i).write(content_byte(case.seed, i)) };
+            }
+            unsafe { Buffer::detach(&mut h) };
+        }
+        let span = cap - d;
+        let mark = d + ((case.mark as usize * (span + 1)) >> 16);
+        unsafe { arena.rewind(ArenaPosition::Start(mark as u32)) };
+        let stored = arena.allocated();
+        drop(arena);
+        if stored <= d + 1 {
+            return Ok(());
+        }
+        // a capacity in [data_offset, stored cursor): enough for the header, too small for the allocated part
+        let small = d + ((sel as usize >> 2) % (stored - d));
+        let mode = (sel & 3) as u8;
+        let o = opts.with_read(true).with_capacity(small as u32);
+        let what = crate::enga::OPEN_NAMES[mode as usize];
+        let r = guard(what, "C15", || crate::enga::open_variant::<A>(o, mode, false, &path))?;
+        let arena = match r {
+            Err(_) => {
+                classes.insert("reopen-below-cursor-refused");
+                return Ok(());
+            }
+            Ok(a) => a,
+        };
+        classes.insert("reopen-below-cursor-accepted");
+        let (al, cp, ml, aml, dl) = (arena.allocated(), arena.capacity(), arena.memory().len(), arena.allocated_memory().len(), arena.data().len());
+        if al > cp || aml > ml || dl > ml {
+            // do not touch the slices: they reach past the mapping
+            std::mem::forget(arena);
+            return Err(viol!("C15", "cursor-beyond-memory", "{what} with capacity {small} of a file whose stored cursor is {stored}: allocated()={al} capacity()={cp}; allocated_memory().len()={aml} and data().len()={dl} but memory().len()={ml}: offsets in [{ml}, {al}) lie below allocated() and outside the arena's memory (get_u8({ml}) reads past the mapping)"));
+        }
+        // accepted and consistent: every reader at the end of memory must behave
+        for o in [ml.saturating_sub(1), ml, ml + 1, al.saturating_sub(1), al] {
+            let got = guard("get_u8", "C15", || arena.get_u8(o))?;
+            if got.is_ok() != (o < al) {
+                return Err(viol!("C15", "read-beyond-allocated", "get_u8({o}) = {got:?} with allocated()={al} after a reopen with a smaller capacity"));
+            }
+        }
+        Ok(())
+    })();
+    let _ = std::fs::remove_file(&path);
+    CaseReport { nontrivial: classes.contains("reopen-below-cursor-refused") || classes.contains("reopen-below-cursor-accepted"), classes, viol: res.err() }
+}
+
 mod dbutils_decode {
     // the decoder rarena itself delegates to (a dependency, not the code under test): the reader must
     // hand it exactly memory[o .. min(allocated, o + MAXLEN)]
@@ -253,8 +323,8 @@ impl Prop for C15 {
             1 => any::<u8>().prop_map(OffSpec::Big),
         ];
         let q = (0..NREADERS, off).prop_map(|(reader, off)| Query { reader, off });
-        (any::<bool>(), any::<bool>(), prop_oneof![Just(0u8), 0u8..40], any::<u16>(), any::<u32>(), any::<u16>(), prop::collection::vec(q, 1..=nq))
-            .prop_map(|(sync, unify, reserved, extra, seed, mark, queries)| CaseC15 { sync, unify, reserved, extra, seed, mark, queries })
+        (any::<bool>(), any::<bool>(), prop_oneof![Just(0u8), 0u8..40], any::<u16>(), any::<u32>(), any::<u16>(), prop::collection::vec(q, 1..=nq), prop_oneof![39 => Just(None), 1 => any::<u16>().prop_map(Some)])
+            .prop_map(|(sync, unify, reserved, extra, seed, mark, queries, shrink)| CaseC15 { sync, unify, reserved, extra, seed, mark, queries, shrink })
             .boxed()
     }
     fn run(case: &CaseC15) -> CaseReport {
@@ -268,7 +338,7 @@ impl Prop for C15 {
         scale(tier, 2_000_000, 10_000_000)
     }
     fn rule() -> &'static str {
-        "an arena filled with pseudo-random content (continuation-heavy) and then rewound so that non-zero bytes lie above allocated(); 1..8 reader calls at offsets dense around allocated()-20..+3 and capacity, 0..=capacity+16, around 2^32 / 2^63 and usize::MAX-k, for get_u8/i8, get_{u,i}{16,32,64,128}_{be,le} and the eight varint readers, under checked and unchecked builds. Oracle: fixed width Ok(v) with v = reference decode of memory()[o..o+N] iff o+N <= allocated() (u128 arithmetic) else OutOfBounds; varint: OutOfBounds at or above the mark, otherwise the result equals the decoder applied to exactly memory()[o..min(allocated, o+MAXLEN)] (const_varint, the crate rarena delegates to), cross-checked with an independent LEB128 reference for unsigned types; slice accessor lengths. Non-trivial = non-zero bytes above the mark and a query that straddles the mark, a varint whose terminator lies above it, or an offset near usize::MAX"
+        "an arena filled with pseudo-random content (continuation-heavy) and then rewound so that non-zero bytes lie above allocated(); 1..8 reader calls at offsets dense around allocated()-20..+3 and capacity, 0..=capacity+16, around 2^32 / 2^63 and usize::MAX-k, for get_u8/i8, get_{u,i}{16,32,64,128}_{be,le} and the eight varint readers, under checked and unchecked builds. Oracle: fixed width Ok(v) with v = reference decode of memory()[o..o+N] iff o+N <= allocated() (u128 arithmetic) else OutOfBounds; varint: OutOfBounds at or above the mark, otherwise the result equals the decoder applied to exactly memory()[o..min(allocated, o+MAXLEN)] (const_varint, the crate rarena delegates to), cross-checked with an independent LEB128 reference for unsigned types; slice accessor lengths. One case in 40 is the file variant: the arena lives in a file, is closed after the rewind and reopened (map_mut / map_copy / map / map_copy_read_only) with a capacity option below the cursor stored in the file: the open must be refused, or yield an arena whose allocated_memory() / data() stay inside memory() and whose readers behave at the end of memory. Non-trivial = non-zero bytes above the mark and a query that straddles the mark, a varint whose terminator lies above it, or an offset near usize::MAX"
     }
     fn simplify(c: &CaseC15) -> Vec<CaseC15> {
         (0..c.queries.len())
